@@ -191,6 +191,7 @@ func runC04(c *Ctx, r *Rec) {
 	}
 	checkNoBlockingUnderLock(c, r, "D3-no-blocking-under-lock", qr)
 	checkNoReentryUnderLock(c, r, "D3-no-reentry-under-lock", qr)
+	checkGuardedReferenceStaysInside(c, r, "D1-guarded-reference-stays-inside", qr)
 	r.floor("D2-lock-pairing", 1)
 	r.floor("D3-no-blocking-under-lock", 1)
 
@@ -1285,5 +1286,54 @@ func checkNoReentryUnderLock(c *Ctx, r *Rec, rule string, qr *queueRoles) {
 	}
 	if n == 0 {
 		r.skip(rule, "collection.QueueLike/lock-regions", "", "no lock region found in the methods of the queue")
+	}
+}
+
+// checkGuardedReferenceStaysInside: a local that is given the value of a guarded reference field
+// (the value list) inside a lock region is an alias of the shared object; calling a method on it
+// where the mutex is no longer held reads or changes the shared object outside the lock.
+func checkGuardedReferenceStaysInside(c *Ctx, r *Rec, rule string, qr *queueRoles) {
+	info := c.info("collection")
+	ms := c.methodsOf(qr.q)
+	mkey := objKey(qr.mutexF)
+	n := 0
+	for _, name := range sortedKeys(ms) {
+		fd := ms[name]
+		g := newFG(info, fd.Body)
+		li := computeLock(g, info, mkey)
+		bad := ""
+		inspectNoLit(fd.Body, func(x ast.Node) bool {
+			lhs, rhs, ok := multiDef(x)
+			if !ok || len(lhs) != 1 || selectorField(info, rhs) != qr.listF {
+				return true
+			}
+			lo := identObj(info, lhs[0])
+			if lo == nil {
+				return true
+			}
+			if held, ok := li.heldAt(x); !ok || !held {
+				return true
+			}
+			n++
+			inspectNoLit(fd.Body, func(y ast.Node) bool {
+				rx, mname, call, ok := methodCall(y)
+				if !ok || !isObj(info, rx, lo) || bad != "" {
+					return true
+				}
+				if held, ok := li.heldAt(call); ok && !held {
+					bad = fmt.Sprintf("%s is given the value list inside the lock region and %s.%s is called at %s after the mutex was released: the list is read while AddValue or RemoveHead changes it", lo.Name(), lo.Name(), mname, c.pos(call.Pos()))
+				}
+				return true
+			})
+			return true
+		})
+		if bad != "" {
+			r.fail(rule, c.fdName(fd), c.pos(fd.Pos()), bad)
+		}
+	}
+	if n == 0 {
+		r.ok(rule, "collection.QueueLike/value-list", "", "no local is given the value list itself inside a lock region")
+	} else {
+		r.ok(rule, "collection.QueueLike/value-list-aliases", "", fmt.Sprintf("%d locals hold the value list; those not reported are used only while the mutex is held", n))
 	}
 }
